@@ -63,7 +63,9 @@ INTS = [None, 0, 1, 2, 5, -3]
 # binary values (a scalar like any other: one placeholder, one bound value)
 BLOBS = [None, b"", b"a", b"ab", b"ab", b"\x00\xff", b"a'b", b"abc"]
 STRS = [None, "", "a", "ab", "A", "a%", "a_b", "x'y", "c:\\tmp\\a", "c:tmpa", "\\_", "\\x", "c:\\tmp\\a", "\\", "c:\\tmp\\b", "'; DROP TABLE t; --", '"q"', "abc", "1 OR 1=1", "%",
-        "IS NULL", "is not null", "IN", "LIKE", "=", "NULL", "?", "%s"]
+        "IS NULL", "is not null", "IN", "LIKE", "=", "NULL", "?", "%s",
+        # (texts that differ in their blanks only)
+        "a  b", "a b", "a\tb", "a  b"]
 HOSTILE = {"x'y", "'; DROP TABLE t; --", '"q"', "1 OR 1=1", "IS NULL", "is not null", "IN", "LIKE", "=", "NULL", "?",
            "%s"}
 
@@ -232,6 +234,9 @@ STATICS = [
     ("(n is null or s = 'abc')", lambda row: OR([row['n'] is None, cmp('=', row['s'], 'abc')])),
     ("s LIKE 'a%'", lambda row: None if row['s'] is None else like('a%', row['s'])),
     ("id % 2 = 1", lambda row: row['id'] % 2 == 1),
+    # (blanks inside a quoted literal are data)
+    ("s = 'a  b'", lambda row: cmp('=', row['s'], 'a  b')),
+    ("s   !=   'a\tb'", lambda row: cmp('!=', row['s'], 'a\tb')),
 ]
 # static texts with a bare OR: only the parentheses an OR group promises make them safe, so they are
 # generated as operands of OR groups only (first N_TOP entries of STATICS may stand at the top level)
@@ -377,6 +382,9 @@ def method(kind):
         elif kind == "no-key":
             # no selected column is unique: two different rows may give the same record
             _METHODS[kind] = SqlMethod("SELECT n, s FROM t", order_by="id")
+        elif kind == "keyword-names":
+            # (names a record class cannot have although they are identifiers: a keyword, a leading underscore)
+            _METHODS[kind] = SqlMethod('SELECT id, n AS "class", s AS _s FROM t', order_by="id")
         elif kind == "odd-names":
             _METHODS[kind] = SqlMethod('SELECT id, n AS "class", s AS "2 s" FROM t', order_by="id")
         else:
@@ -619,7 +627,9 @@ def run_case(ctx, rng):
                 via = rng.random()
                 if via < 0.12:
                     # the selected columns have names that cannot be attribute names: the records are plain tuples
-                    recs = method("odd-names").list(conn, *args, **call_kw)
+                    if via >= 0.06 and len(rows) % 2:
+                        _METHODS.pop("keyword-names", None)     # (a method object that meets its first request)
+                    recs = method("odd-names" if via < 0.06 else "keyword-names").list(conn, *args, **call_kw)
                     ctx.count("queries_whose_records_are_plain_tuples")
                 elif via < 0.24 and MCallerSql is not None:
                     # the query is a method of the application's sql method caller, which owns the connection
